@@ -737,6 +737,11 @@ class Emitter:
             return 'AVM_SHL_S%d(%s, %s)' % (SIGNED_INT[T], self.E(a), self.E(b))
         if op in ('.*', '->*'):
             raise Abort('pointer to member')
+        if op in ('/', '%') and T in DIVT:
+            # integer division goes through a macro so that a TU can treat the divide instruction as an uninterpreted
+            # (functionally consistent) operation; by default the macro is the C operator itself
+            self.cur['externs'].add('AVM_DIV')
+            return 'AVM_%s_%s(%s, %s)' % ('DIV' if op == '/' else 'REM', DIVT[T], self.E(a), self.E(b))
         return '(%s %s %s)' % (self.E(a), op, self.E(b))
 
     def compound_assign(self, n):
@@ -751,6 +756,11 @@ class Emitter:
                 self.cur['externs'].add('AVM_SHL_S')
                 ea = self.E(a)
                 return '(%s = (%s)AVM_SHL_S%d((%s)%s, %s))' % (ea, lt, SIGNED_INT[crt], crt, ea, self.E(b))
+        if op in ('/=', '%=') and (self.ctype(ct) if ct else lt) in DIVT:
+            crt = self.ctype(ct) if ct else lt
+            self.cur['externs'].add('AVM_DIV')
+            ea = self.E(a)
+            return '(%s = (%s)AVM_%s_%s((%s)%s, (%s)%s))' % (ea, lt, 'DIV' if op == '/=' else 'REM', DIVT[crt], crt, ea, crt, self.E(b))
         return '(%s %s %s)' % (self.E(a), op, self.E(b))
 
     def call(self, n):
@@ -1317,6 +1327,8 @@ X86_ENUMS = {'_MM_CMPINT_EQ': 0, '_MM_CMPINT_LT': 1, '_MM_CMPINT_LE': 2, '_MM_CM
              '_MM_CMPINT_NLT': 5, '_MM_CMPINT_NLE': 6, '_MM_CMPINT_GE': 5, '_MM_CMPINT_GT': 6,
              '_MM_MANT_NORM_1_2': 0, '_MM_MANT_NORM_p5_2': 1, '_MM_MANT_NORM_p5_1': 2, '_MM_MANT_NORM_p75_1p5': 3,
              '_MM_MANT_SIGN_src': 0, '_MM_MANT_SIGN_zero': 1, '_MM_MANT_SIGN_nan': 2}
+
+DIVT = {'int32_t': 'i32', 'uint32_t': 'u32', 'int64_t': 'i64', 'uint64_t': 'u64', 'long long': 'i64', 'unsigned long long': 'u64', 'size_t': 'u64'}
 
 C_RESERVED = {'restrict', 'inline', 'register', 'auto', 'main', 'm128', 'm256', 'm512', 'near', 'far'}
 
